@@ -324,3 +324,66 @@ fn c11_pipeline_order() {
     }
     println!("COMPANION-OK cases={}", cases);
 }
+
+// ------------------------------------------------------------------------------------------ C06 / C02 / C03 through the CLI
+/// `bita -v clone` with --seed-output and --seed files, fixed-size chunks of 4096 bytes (so the scan finds exactly the aligned
+/// blocks): the number of chunks fetched from the archive (the CLI's own "Fetching N chunks" line) must be the number of unique
+/// source chunks found neither in the prior output -- anywhere in it, also beyond the source length -- nor in a seed; the
+/// output must equal the source and have its length.
+#[test]
+fn c06_cli_seed_reuse() {
+    let dir = Tmp::new("c06");
+    let mut rng = Rng(0x0606_c11c_0000_0011);
+    let blk: Vec<Vec<u8>> = (0..8).map(|i| block(&mut rng, 4096, true, i as u8)).collect();   // 0..5 source chunks, 6..7 junk
+    let cat = |ids: &[usize]| -> Vec<u8> { ids.iter().flat_map(|&i| blk[i].iter().copied()).collect() };
+    let mut cases = 0;
+    // (source, prior output or none, seed files)
+    let scenarios: Vec<(Vec<usize>, Option<Vec<usize>>, Vec<Vec<usize>>)> = vec![
+        (vec![0, 1, 2, 3], None, vec![]),
+        (vec![0, 1, 2, 3], Some(vec![6, 1, 7, 7, 0, 2]), vec![]),              // reusable chunks beyond the source length
+        (vec![0, 1, 2, 3], Some(vec![3, 2, 1, 0]), vec![]),                    // everything there, reversed
+        (vec![0, 1, 0, 2, 0], Some(vec![6, 0]), vec![vec![2, 7]]),             // a chunk at several offsets; output + seed file
+        (vec![0, 1, 2, 3, 4, 5], Some(vec![0, 1]), vec![vec![5, 6], vec![7, 3]]),
+        (vec![0, 1, 2], Some(vec![0, 1, 2, 6, 7]), vec![]),                    // already in place, longer output
+        (vec![4, 4, 5], None, vec![vec![5], vec![4]]),
+    ];
+    for (source_ids, prior, seeds) in scenarios {
+        let source = cat(&source_ids);
+        let src = dir.path("s.src");
+        std::fs::write(&src, &source).unwrap();
+        let arch = dir.path("a.cba");
+        let _ = std::fs::remove_file(&arch);
+        let st = Command::new(BITA).arg("compress").arg("-i").arg(&src).args(["--fixed-size", "4096", "--compression", "none"]).arg(&arch).output().unwrap();
+        if !st.status.success() { witness("C11", "bita compress failed", String::from_utf8_lossy(&st.stderr).into()); }
+        let out = dir.path("out.bin");
+        let _ = std::fs::remove_file(&out);
+        let mut cmd = Command::new(BITA);
+        cmd.arg("-v").arg("clone");
+        let mut available: std::collections::BTreeSet<usize> = Default::default();
+        if let Some(p) = &prior { std::fs::write(&out, cat(p)).unwrap(); cmd.arg("--seed-output"); available.extend(p.iter().copied()); }
+        for (i, sd) in seeds.iter().enumerate() {
+            let sp = dir.path(&format!("seed{}.bin", i));
+            std::fs::write(&sp, cat(sd)).unwrap();
+            cmd.arg("--seed").arg(&sp);
+            available.extend(sd.iter().copied());
+        }
+        let o = cmd.arg(&arch).arg(&out).output().unwrap();
+        let log = format!("{}{}", String::from_utf8_lossy(&o.stdout), String::from_utf8_lossy(&o.stderr));
+        let label = format!("source {:?} prior {:?} seeds {:?}", source_ids, prior, seeds);
+        if !o.status.success() { witness("C03", "bita clone with seeds failed", format!("{} :: {}", label, &log[log.len().saturating_sub(400)..])); }
+        let got = std::fs::read(&out).unwrap();
+        if got != source {
+            let kind = if prior.is_some() { "C03" } else { "C02" };
+            witness(kind, "the output differs from the source after a successful clone with seeds", label.clone());
+        }
+        let uniq: std::collections::BTreeSet<usize> = source_ids.iter().copied().collect();
+        let expect = uniq.iter().filter(|i| !available.contains(i)).count();
+        let fetched = log.lines().filter_map(|l| l.split("Fetching ").nth(1)).filter_map(|t| t.split(' ').next().and_then(|n| n.parse::<usize>().ok())).next();
+        match fetched {
+            Some(n) if n == expect => {}
+            other => witness("C06", "the number of chunks fetched from the archive is not the number of chunks missing from output and seeds", format!("fetched {:?} expected {} :: {}", other, expect, label)),
+        }
+        cases += 1;
+    }
+    println!("COMPANION-OK cases={}", cases);
+}
